@@ -953,6 +953,95 @@ func sliceOfKeysOf(sl ssa.Value, isMap func(ssa.Value) bool, depth int) bool {
 }
 
 
+// unspillResult: with named results and a deferred call, `return x, y` stores x and y into the result cells, runs
+// the defers and returns what it loads back. When every deferred function only writes through the cells it is
+// given after a recover() that returned non-nil (a panic-to-error boundary), the values loaded on a normal return
+// are the values stored by that return statement: the store preceding the load in the same block.
+func unspillResult(v ssa.Value, ret *ssa.Return) ssa.Value {
+	ld, ok := v.(*ssa.UnOp)
+	if !ok || ld.Op != token.MUL {
+		return v
+	}
+	cell, ok := ld.X.(*ssa.Alloc)
+	if !ok || ld.Block() != ret.Block() {
+		return v
+	}
+	f := ret.Parent()
+	// the deferred functions leave the cells alone unless they recovered a panic
+	safe := true
+	core.EachInstr(f, func(i ssa.Instruction) {
+		d, isD := i.(*ssa.Defer)
+		if !isD {
+			return
+		}
+		g := core.StaticCallee(d)
+		if g == nil || len(g.Blocks) == 0 {
+			// a closure or an unknown function: does it touch the cell?
+			if mc, isMC := d.Call.Value.(*ssa.MakeClosure); isMC {
+				for _, b := range mc.Bindings {
+					if b == ssa.Value(cell) {
+						safe = false
+					}
+				}
+				return
+			}
+			for _, a := range d.Call.Args {
+				if a == ssa.Value(cell) {
+					safe = false
+				}
+			}
+			return
+		}
+		for k, a := range d.Call.Args {
+			if a != ssa.Value(cell) || k >= len(g.Params) {
+				continue
+			}
+			prm := g.Params[k]
+			core.EachInstr(g, func(j ssa.Instruction) {
+				st, isSt := j.(*ssa.Store)
+				if !isSt || st.Addr != ssa.Value(prm) {
+					return
+				}
+				recovered := false
+				for _, cd := range core.CondsAt(st.Block()) {
+					bo, isBo := cd.Value.(*ssa.BinOp)
+					if !isBo {
+						continue
+					}
+					for _, op := range []ssa.Value{bo.X, bo.Y} {
+						if c, isC := op.(*ssa.Call); isC {
+							if b, isB := c.Call.Value.(*ssa.Builtin); isB && b.Name() == "recover" {
+								if (bo.Op == token.NEQ && cd.Sense) || (bo.Op == token.EQL && !cd.Sense) {
+									recovered = true
+								}
+							}
+						}
+					}
+				}
+				if !recovered {
+					safe = false
+				}
+			})
+		}
+	})
+	if !safe {
+		return v
+	}
+	var last ssa.Value
+	for _, i := range ret.Block().Instrs {
+		if i == ssa.Instruction(ld) {
+			break
+		}
+		if st, isSt := i.(*ssa.Store); isSt && st.Addr == ssa.Value(cell) {
+			last = st.Val
+		}
+	}
+	if last != nil {
+		return last
+	}
+	return v
+}
+
 // elemAssumedNonNil: elements of containers are assumed non-nil unless they are dynamic JSON values
 // (interface{}): pointer, func and named-interface (error, validators) elements are only ever inserted
 // non-nil by this package and by the trusted dependencies. Map *lookups* are not covered by this
@@ -1198,7 +1287,7 @@ func (a *nilAn) summarise(f *ssa.Function) bool {
 			if !ok || b == f.Recover {
 				continue
 			}
-			v := ret.Results[ri]
+			v := unspillResult(ret.Results[ri], ret)
 			if a.nonNil(v, ret, 0) {
 				continue
 			}
@@ -1268,10 +1357,10 @@ func (a *nilAn) returnPaired(f *ssa.Function, ret *ssa.Return, ri int) bool {
 		tj := res.At(j).Type()
 		switch {
 		case tj.String() == "error":
-			ev := ret.Results[j]
+			ev := unspillResult(ret.Results[j], ret)
 			ok := false
 			// forwarded pair from a callee
-			if ei, isE := ret.Results[ri].(*ssa.Extract); isE {
+			if ei, isE := unspillResult(ret.Results[ri], ret).(*ssa.Extract); isE {
 				if ej, isE2 := ev.(*ssa.Extract); isE2 && ei.Tuple == ej.Tuple {
 					if c, isC := ei.Tuple.(*ssa.Call); isC {
 						if g := c.Common().StaticCallee(); g != nil {
